@@ -5,8 +5,13 @@ spec -> impl : TLC explores MC_Preprocess (every string up to the bound over nin
                invariants are checked on every step) and prints one CASE per finished text with the
                output the specification prescribes; the harness runs every CASE through
                allsorts::scripts::preprocess_text and compares by equality.
-impl -> spec : seeded random strings per script tag are recorded and judged by Trace_Preprocess
-               (relational clauses + documented pipeline).
+               MC_PreprocessSweep (same state machine and invariants, other Init) adds the sweeps:
+               short fixed shapes with one or two positions running over whole Unicode blocks or over all
+               combining marks, and long mark runs at the boundary sizes of sorting routines.
+               Every CASE is also given to Font::map_glyphs (the observation point the property names);
+               the unicodes of its glyphs are compared with the prescribed text minus variation selectors.
+impl -> spec : seeded random strings per script tag are recorded (preprocess_text and Font::map_glyphs)
+               and judged by Trace_Preprocess (relational clauses + documented pipeline + map_glyphs).
 table        : the modified-combining-class table is part of the specification (specs/ModifiedCcc.tla:
                canonical class -> modified class as data, with lemmas TLC checks).  MC_ModifiedCcc prints
                the prescribed value per canonical class; the harness calls allsorts'
@@ -66,6 +71,8 @@ def _key(m):
     fails = sorted(m["fails"])
     if fails == ["panic"]:
         return "%s|panic|%s" % (m["family"], _panic_class(m["panic"]))
+    if "mgpanic" in fails:
+        return "%s|%s|%s" % (m["family"], ",".join(fails), _panic_class(m.get("mgpanic", "")))
     return "%s|%s" % (m["family"], ",".join(fails))
 
 
@@ -74,8 +81,9 @@ def _hex(cps):
 
 
 def _mk_viol(m, source):
-    what = "%s: preprocess_text(tag=%r, [%s]) -> [%s]%s; spec: [%s]; failing clauses: %s" % (
+    what = "%s: preprocess_text(tag=%r, [%s]) -> [%s]%s; Font::map_glyphs unicodes [%s]%s; spec: [%s]; failing clauses: %s" % (
         source, m["tag"], _hex(m["in"]), _hex(m["got"]), (" PANIC " + m["panic"]) if m.get("panic") else "",
+        _hex(m.get("mg", [])), (" PANIC " + m["mgpanic"]) if m.get("mgpanic") else "",
         _hex(m["want"]), ",".join(sorted(m["fails"])))
     return Violation(_key(m), what, {"source": source, **m})
 
@@ -139,8 +147,19 @@ def _class_table(ctx, binp, tag="mcccc", only=None):
     return mc, st, mism, cases
 
 
-def _event(i, case, tag, inp, out, panic=""):
-    return {"i": i, "case": case, "ev": "Preprocess", "a": {"tag": tag, "in": inp}, "o": {"out": out, "panic": panic}}
+def _event(i, case, tag, inp, out, panic="", mg=None, mgpanic=""):
+    return {"i": i, "case": case, "ev": "Preprocess", "a": {"tag": tag, "in": inp},
+            "o": {"out": out, "panic": panic, "mg": out if mg is None else mg, "mgpanic": mgpanic}}
+
+
+_VARSEL = set(range(0x180B, 0x180E)) | {0x180F} | set(range(0xFE00, 0xFE10)) | set(range(0xE0100, 0xE01F0))
+
+SWEEP_GENERATORS = ["pairs", "xpairs", "reph", "single", "am", "amtones", "marks", "yan", "raswap", "long"]
+# (sweep generator / primitive) combinations that must have changed some generated text
+SWEEP_NEEDED = ["pairs/constrain", "pairs/split", "xpairs/constrain", "reph/constrain", "single/split",
+                "single/ksplit", "single/am", "single/sort", "am/am", "amtones/am", "marks/shadda", "marks/mcmA",
+                "marks/mcmB", "marks/sort", "yan/yanukta", "raswap/raswap", "long/sort", "long/shadda",
+                "long/mcmA", "long/am"]
 
 
 def run(ctx):
@@ -171,11 +190,27 @@ def run(ctx):
 
     # ---- spec -> impl -------------------------------------------------------------------------
     cfg = "MC_Preprocess_quick.cfg" if ctx.quick else "MC_Preprocess_thorough.cfg"
+    scfg = "MC_PreprocessSweep_quick.cfg" if ctx.quick else "MC_PreprocessSweep_thorough.cfg"
     cases_path = ctx.path("cases.ndjson")
+    sweep_path = ctx.path("sweep_cases.ndjson")
     n_cases = [0]
+    n_sweep = [0]
     samples = []
     plant = [None]
-    with open(cases_path, "w") as fc:
+    tlc_timeout = 1500 if ctx.quick else 3000
+
+    def run_sweep():
+        with open(sweep_path, "w") as fs:
+            def ssink(tag, payload):
+                if tag == "CASE":
+                    fs.write(payload + "\n")
+                    n_sweep[0] += 1
+            return vlib.run_tlc(ctx, "MC_PreprocessSweep", scfg, "sweep", workers=5, timeout=tlc_timeout,
+                                sink=ssink, env_extra={"C17_MCC": mcc})
+
+    with concurrent.futures.ThreadPoolExecutor(max_workers=1) as pool, open(cases_path, "w") as fc:
+        fut = pool.submit(run_sweep)            # the two generators are independent: run them side by side
+
         def sink(tag, payload):
             if tag == "CASE":
                 fc.write(payload + "\n")
@@ -187,44 +222,58 @@ def run(ctx):
                             plant[0] = c
                         else:
                             samples.append(c)
-        mc = vlib.run_tlc(ctx, "MC_Preprocess", cfg, "mc", workers=8, timeout=600 if ctx.quick else 1500,
+        mc = vlib.run_tlc(ctx, "MC_Preprocess", cfg, "mc", workers=5, timeout=tlc_timeout,
                           sink=sink, env_extra={"C17_MCC": mcc})
+        swp = fut.result()
         if n_cases[0] == 0 or plant[0] is None:
             raise vlib.ToolError("no CASE lines generated")
-        # binding self-check (spec -> impl): a case whose expectation is "text unchanged" although the
-        # specification changes it must be reported by the harness
-        bad = dict(plant[0], exp=plant[0]["in"], alt=[], id="selftest-corrupt")
+        if n_sweep[0] == 0:
+            raise vlib.ToolError("no CASE lines generated by the sweeps")
+        # binding self-checks (spec -> impl): a case whose expectation is "text unchanged" although the
+        # specification changes it must be reported by the harness, and so must a case whose expectation for
+        # preprocess_text is right but whose expectation for Font::map_glyphs is "text unchanged"
+        bad = dict(plant[0], exp=plant[0]["in"], expm=plant[0]["in"], alt=[], altm=[], id="selftest-corrupt")
         fc.write(json.dumps(bad) + "\n")
+        bad2 = dict(plant[0], expm=plant[0]["in"], altm=[], id="selftest-corrupt-mg")
+        fc.write(json.dumps(bad2) + "\n")
     ctx.note("MC_Preprocess: %d states generated, %d distinct, depth %d, %d cases (%.1fs)" %
              (mc.generated, mc.distinct, mc.depth, n_cases[0], mc.wall))
+    ctx.note("MC_PreprocessSweep: %d states generated, %d distinct, depth %d, %d cases (%.1fs)" %
+             (swp.generated, swp.distinct, swp.depth, n_sweep[0], swp.wall))
 
     mism_path = ctx.path("mismatches.ndjson")
     rep = vlib.run_harness(binp, ["replay", cases_path, mism_path])
     ctx.note("replay: %s" % json.dumps(rep))
-    gen_mism, gen_dev, planted_seen = [], [], False
-    for m in vlib.read_ndjson(mism_path):
-        if m.get("id") == "selftest-corrupt":
-            planted_seen = True
+    smism_path = ctx.path("sweep_mismatches.ndjson")
+    srep = vlib.run_harness(binp, ["replay", sweep_path, smism_path])
+    ctx.note("replay of the sweeps: %s" % json.dumps(srep))
+    gen_mism, gen_dev, planted_seen = [], [], set()
+    for m in vlib.read_ndjson(mism_path) + vlib.read_ndjson(smism_path):
+        if str(m.get("id")).startswith("selftest-"):
+            planted_seen.add(m["id"])
         elif m["kind"] == "dev":
             gen_dev.append(m)
         else:
             gen_mism.append(m)
-    if not planted_seen:
-        raise vlib.ToolError("binding self-check failed: the harness accepted a corrupted generated case")
+    if planted_seen != {"selftest-corrupt", "selftest-corrupt-mg"}:
+        raise vlib.ToolError("binding self-check failed: the harness accepted a corrupted generated case (%s reported)"
+                             % sorted(planted_seen))
 
     # ---- impl -> spec -------------------------------------------------------------------------
     per_tag = 2500 if ctx.quick else 40000
     trace = ctx.path("trace.ndjson")
     rec = vlib.run_harness(binp, ["record", ctx.seed, per_tag, trace], timeout=3000)
     ctx.note("record: %s" % json.dumps(rec))
-    # binding self-check (impl -> spec): two corrupted copies of a recorded event whose text was changed
+    # binding self-check (impl -> spec): three corrupted copies of a recorded event whose text was changed
+    # (text left unchanged; two characters swapped; preprocess_text right but map_glyphs' unicodes unchanged)
     planted = []
     with open(trace) as f:
         for ln in f:
             e = json.loads(ln)
             o, a = e["o"]["out"], e["a"]["in"]
-            if o != a and len(o) == len(a) and not e["o"]["panic"]:
+            if o != a and len(o) == len(a) and not e["o"]["panic"] and not (set(a) & _VARSEL):
                 planted.append(_event(10 ** 8, "selftest-unchanged", e["a"]["tag"], a, a))
+                planted.append(_event(10 ** 8 + 2, "selftest-mg", e["a"]["tag"], a, o, mg=a))
                 d = [k for k in range(len(o)) if o[k] != a[k]]
                 sw = list(o)
                 sw[d[0]], sw[d[-1]] = sw[d[-1]], sw[d[0]]
@@ -233,7 +282,8 @@ def run(ctx):
     if not planted:
         raise vlib.ToolError("no recorded event changed its text: trace is vacuous")
     # the generated mismatches are judged as well, so that the specification names the failing clauses
-    extra = [_event(2 * 10 ** 8 + k, "generated-%d" % k, m["tag"], m["in"], m["got"], m.get("panic", ""))
+    extra = [_event(2 * 10 ** 8 + k, "generated-%d" % k, m["tag"], m["in"], m["got"], m.get("panic", ""),
+                    mg=m["mg"], mgpanic=m.get("mgpanic", ""))
              for k, m in enumerate(gen_mism[:2000])]
     with open(trace, "a") as f:
         for x in planted + extra:
@@ -254,7 +304,7 @@ def run(ctx):
             violations.append(_mk_viol(m, "generated"))
         else:
             violations.append(_mk_viol(m, "recorded"))
-    if seen_planted != {"selftest-unchanged", "selftest-swapped"}:
+    if seen_planted != {"selftest-unchanged", "selftest-swapped", "selftest-mg"}:
         raise vlib.ToolError("binding self-check failed: Trace_Preprocess accepted a corrupted event (%s rejected)"
                              % sorted(seen_planted))
     if len(judged_generated) != len(extra):
@@ -277,11 +327,23 @@ def run(ctx):
               flush=True)
 
     coverage = {
-        "states": mc.distinct,
-        "transitions": mc.generated,
-        "traces_validated_against_impl": n_cases[0] + rec["events"],
+        "states": mc.distinct + swp.distinct,
+        "transitions": mc.generated + swp.generated,
+        "traces_validated_against_impl": n_cases[0] + n_sweep[0] + rec["events"],
         "samples": samples[:2] + [plant[0]],
         "generated_cases": n_cases[0],
+        "bounded_strings_states": mc.distinct,
+        "sweep_states": swp.distinct,
+        "sweep_cases": n_sweep[0],
+        "sweep_cases_per_generator": srep.get("cases_per_generator"),
+        "sweep_generator_stage_counts": srep.get("generator_stage_counts"),
+        "sweep_cases_per_tag": srep.get("cases_per_tag"),
+        "sweep_cases_where_impl_changed_text": srep.get("impl_changed_text"),
+        "map_glyphs_calls_generated": rep.get("map_glyphs_calls", 0) + srep.get("map_glyphs_calls", 0),
+        "generated_cases_with_variation_selectors": rep.get("cases_with_variation_selectors"),
+        "recorded_cluster_texts": rec.get("cluster_texts"),
+        "recorded_two_class_run_texts": rec.get("two_class_run_texts"),
+        "recorded_map_glyphs_panics": rec.get("map_glyphs_panics"),
         "generated_cases_per_tag": rep.get("cases_per_tag"),
         "generated_cases_where_impl_changed_text": rep.get("impl_changed_text"),
         "stage_changed_counts": rep.get("stage_changed_counts"),
@@ -305,17 +367,26 @@ def run(ctx):
         "class_table_undocumented_classes_seen": tst.get("undocumented_classes_seen"),
         "class_table_mismatches": len(tmism),
         "tlc_depth": mc.depth,
-        "binding_selfcheck": "corrupted class table case and corrupted generated case reported by the harness; "
-                             "two corrupted events rejected by the judge",
+        "binding_selfcheck": "corrupted class table case and two corrupted generated cases (preprocess_text, "
+                             "map_glyphs) reported by the harness; three corrupted events rejected by the judge",
         "exhaustive": True,
-        "explanation": "exhaustive over the bounded model (config %s: all strings up to the length bound over nine "
-                       "code points per alphabet, 19 alphabets); recorded traces are random samples" % cfg,
+        "explanation": "exhaustive over the bounded models (config %s: all strings up to the length bound over nine "
+                       "code points per alphabet, 19 alphabets; config %s: ten sweeps of fixed shapes over whole "
+                       "Unicode blocks / all combining marks and long runs); recorded traces are random samples"
+                       % (cfg, scfg),
     }
     # vacuity guard: every primitive must have changed some generated text
     needed = {"sort", "shadda", "mcmA", "mcmB", "am", "constrain", "split", "ksplit", "yanukta", "raswap"}
     missing = needed - set((rep.get("stage_changed_counts") or {}).keys())
-    if missing:
+    if missing and not violations:      # (with violations in hand, report them rather than a tool error)
         raise vlib.ToolError("vacuous exploration: stages never changed a text: %s" % sorted(missing))
+    # ... every sweep must have produced cases, and the primitives it is there for must have fired (counted on
+    # TLC's own CASE lines: `gen` and `ch`), e.g. one dotted circle per prohibited pair of the table
+    sgen = srep.get("cases_per_generator") or {}
+    sst = srep.get("generator_stage_counts") or {}
+    smissing = [g for g in SWEEP_GENERATORS if not sgen.get(g)] + [x for x in SWEEP_NEEDED if not sst.get(x)]
+    if (smissing or sst.get("pairs/constrain", 0) < 60) and not violations:
+        raise vlib.ToolError("vacuous sweeps: %s; pairs/constrain=%s" % (smissing, sst.get("pairs/constrain")))
     vlib.finish(ctx, LEVEL, coverage, violations, ASSUMPTIONS)
 
 
@@ -333,15 +404,11 @@ def replay(ctx, path):
         return 1 if mism else 0
     mcc = ctx.path("mcc.json")
     vlib.run_harness(binp, ["table", mcc])
-    one = ctx.path("one_cases.ndjson")
-    # run the input again on the current tree and let the judge decide
-    vlib.write_ndjson(one, [{"tag": d["tag"], "in": d["in"], "exp": d["want"], "alt": [], "ch": [], "id": "replay"}])
-    vlib.run_harness(binp, ["replay", one, ctx.path("one_mm.ndjson")])
-    mm = vlib.read_ndjson(ctx.path("one_mm.ndjson"))
-    got = mm[0]["got"] if mm else d["want"]
-    panic = mm[0].get("panic", "") if mm else ""
+    # run the input again on the current tree (preprocess_text and Font::map_glyphs) and let the judge decide
     trace = ctx.path("one_trace.ndjson")
-    vlib.write_ndjson(trace, [_event(0, "replay", d["tag"], d["in"], got, panic)])
+    vlib.run_harness(binp, ["one", d["tag"], trace] + list(d["in"]))
+    ev = vlib.read_ndjson(trace)[0]
+    got = ev["o"]["out"]
     _, mism, dev = _judge(ctx, trace, mcc, "replayjudge", parts=1)
     for m in mism:
         print("REPRODUCED key=%s tag=%r in=[%s] got=[%s] spec=[%s] %s" %
